@@ -1,4 +1,4 @@
-import CardVerif.Spec.GinRules
+import CardModel.Spec.GinRules
 import CardVerif.Proofs.GinInv
 /-!
 # C09 — stock, discard pile and hands always partition the deal
